@@ -4,6 +4,7 @@
 package vc
 
 import (
+	"hash/fnv"
 	"bufio"
 	"bytes"
 	"crypto/sha1"
@@ -70,6 +71,8 @@ type Scenario struct {
 	Exhaustive  bool           `json:"exhaustive"`
 	StopReason  string         `json:"stop_reason,omitempty"`
 	Samples     []interface{}  `json:"samples,omitempty"`
+	StateKeys   []uint64       `json:"state_keys,omitempty"` // sorted hashes of canonical states (merged, then replaced by States)
+	stateSet    map[uint64]struct{}
 }
 
 // Report is what a shard returns to the parent.
@@ -196,6 +199,55 @@ func (c *Ctx) Explore(o ExploreOpts, body func(), check func(x *vsched.Exec) (ou
 	}
 }
 
+// AddState records a canonical state key (hashed); distinct keys are counted
+// across all workers.
+func (s *Scenario) AddState(key string) {
+	h := fnv.New64a()
+	h.Write([]byte(key))
+	if s.stateSet == nil {
+		s.stateSet = map[uint64]struct{}{}
+	}
+	s.stateSet[h.Sum64()] = struct{}{}
+}
+
+// NumStates returns the number of distinct states recorded so far in this process.
+func (s *Scenario) NumStates() int { return len(s.stateSet) }
+
+func (r *Report) finalizeStates() {
+	for _, s := range r.Scenarios {
+		if len(s.stateSet) == 0 {
+			continue
+		}
+		keys := make([]uint64, 0, len(s.stateSet))
+		for k := range s.stateSet {
+			keys = append(keys, k)
+		}
+		sort.Slice(keys, func(i, j int) bool { return keys[i] < keys[j] })
+		s.StateKeys = unionKeys(s.StateKeys, keys)
+		s.stateSet = nil
+	}
+}
+
+func unionKeys(a, b []uint64) []uint64 {
+	out := make([]uint64, 0, len(a)+len(b))
+	i, j := 0, 0
+	for i < len(a) || j < len(b) {
+		switch {
+		case j >= len(b) || (i < len(a) && a[i] < b[j]):
+			out = append(out, a[i])
+			i++
+		case i >= len(a) || b[j] < a[i]:
+			out = append(out, b[j])
+			j++
+		default:
+			out = append(out, a[i])
+			i++
+			j++
+		}
+	}
+	return out
+}
+
 // Case records one enumerated case of an input/case enumeration.
 func (s *Scenario) Case(outcome string, nontrivial bool) {
 	s.Evaluations++
@@ -262,6 +314,9 @@ func merge(into *Report, r *Report) {
 		t.Evaluations += s.Evaluations
 		t.Nontrivial += s.Nontrivial
 		t.States += s.States
+		if len(s.StateKeys) > 0 {
+			t.StateKeys = unionKeys(t.StateKeys, s.StateKeys)
+		}
 		t.Transitions += s.Transitions
 		t.CapHits += s.CapHits
 		if s.MaxPoints > t.MaxPoints {
@@ -366,6 +421,7 @@ func Main() {
 			}
 		}
 		runShard(ck, ctx)
+		ctx.Report.finalizeStates()
 		if sh != "" {
 			b, _ := json.Marshal(ctx.Report)
 			fmt.Println(reportMarker + string(b))
@@ -516,6 +572,10 @@ func writeEvidence(ck *Check, ctx *Ctx, rep *Report, viol, knownN int, wall time
 	for _, s := range rep.Scenarios {
 		evals += s.Evaluations
 		nt += s.Nontrivial
+		if len(s.StateKeys) > 0 {
+			s.States = len(s.StateKeys) // distinct canonical states over all workers
+			s.StateKeys = nil
+		}
 		states += s.States
 		trans += s.Transitions
 		outcomes += len(s.Outcomes)
